@@ -330,6 +330,46 @@ pub fn c03exec(args: &[String]) {
                 }
             }
         }
+        // Huffman-coded literals cut short CONSISTENTLY: the literals header says k compressed bytes, k bytes of table
+        // description + streams follow, then the rest of the block -- the weight / stream readers meet the end of their input
+        // at every offset
+        if let Ok(lay) = crate::frames::walk_frame(bytes) {
+            for b in lay["blocks"].as_array().unwrap() {
+                let (at, c, ty) = (b["at"].as_u64().unwrap() as usize, b["c"].as_u64().unwrap() as usize, b["type"].as_u64().unwrap() as u32);
+                if ty != 2 || c > 400 || c < 4 {
+                    continue;
+                }
+                let body = &bytes[at + 3..at + 3 + c];
+                let (lt, sf) = (body[0] & 3, (body[0] >> 2) & 3);
+                if lt < 2 {
+                    continue;
+                }
+                let v = |n: usize| -> u64 { (0..n).fold(0u64, |x, i| x | ((body[i] as u64) << (8 * i))) };
+                let (hl, regen, comp, four) = match sf {
+                    0 | 1 => (3usize, ((v(3) >> 4) & 0x3FF) as usize, ((v(3) >> 14) & 0x3FF) as usize, sf == 1),
+                    2 => (4, ((v(4) >> 4) & 0x3FFF) as usize, ((v(4) >> 18) & 0x3FFF) as usize, true),
+                    _ => (5, ((v(5) >> 4) & 0x3FFFF) as usize, ((v(5) >> 22) & 0x3FFFF) as usize, true),
+                };
+                if hl + comp > c {
+                    continue;
+                }
+                for k in 0..comp {
+                    if want(idx) {
+                        let mut nb = literals_header(lt, regen, Some(k), four, Some(if four { sf.max(1) } else { 0 }));
+                        nb.extend_from_slice(&body[hl..hl + k]);
+                        nb.extend_from_slice(&body[hl + comp..]);
+                        let mut m = bytes[..at].to_vec();
+                        m[4] &= !0x04;
+                        let h = ((nb.len() as u32) << 3) | (ty << 1) | 1;
+                        m.extend_from_slice(&h.to_le_bytes()[..3]);
+                        m.extend_from_slice(&nb);
+                        *kinds.entry("literals_cut".into()).or_insert(0) += 1;
+                        cx.case(idx, &|| json!({"kind": "literals_cut", "frame": name, "block_at": at, "compressed_size": k}), &m, dicts);
+                    }
+                    idx += 1;
+                }
+            }
+        }
         // insertion / deletion of a byte at a few positions
         for pos in [0usize, 4, 5, 6, 9, bytes.len() / 2, bytes.len().saturating_sub(1)] {
             if pos < bytes.len() {
